@@ -62,7 +62,7 @@ PROPS: dict[str, dict[str, Any]] = {
     },
     "C11": {
         "level": "exploration",
-        "sidecars": ["contracts/c11.py"],
+        "sidecars": ["contracts/c11.py", "contracts/c_run.py"],
         "native_n": {"quick": 400, "thorough": 20000},
         "bounded": [{"script": "bounded/store_harness.py", "args": ["--mode", "c11"]}],
         "rule": "bounded stand-in: stores built from 1-3 traces, each one of 17 variants (complete 1-2 span traces at 6 grid positions, a trace with "
@@ -112,7 +112,7 @@ PROPS: dict[str, dict[str, Any]] = {
         #                     IntegrityError) does not mention the rows found at entry
         #   contracts/c11.py  a fresh DataHolder starts with the default time range, and get_time_window on it is the whole axis
         #                     (lemma no_ingestion_means_everything): nothing of an earlier process's min/max survives
-        "sidecars": ["contracts/c09.py", "contracts/c11.py"],
+        "sidecars": ["contracts/c09.py", "contracts/c11.py", "contracts/c_run.py"],
         "native_n": {"quick": 150, "thorough": 2000},
         "bounded": [{"script": "bounded/store_harness.py", "args": ["--mode", "c15"]}],
         "rule": "bounded stand-in: every history of <= 3 (thorough 4) runs with flags {ingest, no-ingest} x {unique graphs on/off} over 4 small stores "
